@@ -757,4 +757,26 @@ example : fbigToFloatBase into64 intoSite64 64 10 .halfEven ⟨4899, -7⟩ = som
     fbigToFloatBase into32 intoSite32 64 10 .down ⟨3, -1⟩ = some (.error (.undocumented intoSite32)) ∧
     fbigToFloatBase into64 intoSite64 64 10 .halfEven ⟨5, -324⟩ = none := by decide +kernel
 
+/-! ## Tie A — the literal constants of the hand-written conversion models are those of the source text -/
+
+/-- the constants of `into32/into64` (`into_fNN_internal`: width, overflow and underflow exits; the working precision
+    `to_f32/to_f64` pass to `Context::new`), of `rat32/rat64` (`Repr::to_f32/to_f64` of dashu-ratio: quotient width =
+    precision + 2 guard bits, exits) and the literal bounds `[-149, 128]`, `[-1074, 1024]` of
+    `impl_conversion_to_float!` used in the theorems above equal the definitions REGENERATED from
+    float/src/convert.rs and rational/src/convert.rs on every run (`Dashu/Gen/ConvConsts.lean`); the panic sites
+    `intoSite32/64` ARE the regenerated strings.  A change of any of these literals in /repo breaks this theorem. -/
+theorem conv_constants_regenerated :
+    into32.prec = Dashu.Gen.Conv.into_f32_prec ∧ into32.infExp = Dashu.Gen.Conv.into_f32_inf_exp ∧
+    into32.zeroExp = Dashu.Gen.Conv.into_f32_zero_exp ∧ into32.prec = Dashu.Gen.Conv.to_f32_precision ∧
+    into64.prec = Dashu.Gen.Conv.into_f64_prec ∧ into64.infExp = Dashu.Gen.Conv.into_f64_inf_exp ∧
+    into64.zeroExp = Dashu.Gen.Conv.into_f64_zero_exp ∧ into64.prec = Dashu.Gen.Conv.to_f64_precision ∧
+    rat32.prec + 2 = Dashu.Gen.Conv.rbig_to_f32_quotient_bits ∧ rat32.infShift = Dashu.Gen.Conv.rbig_to_f32_inf_shift ∧
+    rat32.zeroShift - 3 = Dashu.Gen.Conv.rbig_to_f32_zero_shift ∧
+    rat64.prec + 2 = Dashu.Gen.Conv.rbig_to_f64_quotient_bits ∧ rat64.infShift = Dashu.Gen.Conv.rbig_to_f64_inf_shift ∧
+    rat64.zeroShift - 3 = Dashu.Gen.Conv.rbig_to_f64_zero_shift ∧
+    (-149 : Int) = Dashu.Gen.Conv.rbig_try_to_f32_lb ∧ (128 : Int) = Dashu.Gen.Conv.rbig_try_to_f32_ub ∧
+    (-1074 : Int) = Dashu.Gen.Conv.rbig_try_to_f64_lb ∧ (1024 : Int) = Dashu.Gen.Conv.rbig_try_to_f64_ub ∧
+    intoSite32 = Dashu.Gen.Conv.into_f32_assert_site ∧ intoSite64 = Dashu.Gen.Conv.into_f64_assert_site := by
+  decide
+
 end Dashu.Props.C06
